@@ -39,6 +39,10 @@ class GlobalLicensingParseValueError(GlobalLicensingParseError, ValueError):
     """
 
 
+class SpdxIdentifierConflictError(ReuseError):
+    """Two license files resolve to the same SPDX identifier."""
+
+
 class GlobalLicensingConflictError(ReuseError):
     """There are two global licensing files in the project that are not
     compatible.
